@@ -311,7 +311,7 @@ pub fn suite_clirt(dir: &str, seed: u64, thorough: bool, st: &mut Stats) {
             let _ = std::fs::remove_file(s.p("again.cba"));
         }
         // C12: second run, input through a pipe, other buffering
-        let mut args2: Vec<String> = vec!["compress".into()];
+        let mut args2: Vec<String> = match i % 3 { 0 => vec!["-v".into(), "compress".into()], 1 => vec!["compress".into(), "-vv".into()], _ => vec!["compress".into()] };
         args2.extend(compress_args(&c));
         args2.push("--buffered-chunks".into()); args2.push(format!("{}", rng.pick(&[1, 2, 5, 64])));
         args2.push("out2.cba".into());
@@ -433,7 +433,7 @@ pub fn suite_cliclone(dir: &str, seed: u64, thorough: bool, st: &mut Stats) {
         let nfail = script.iter().filter(|x| !matches!(x, SItem::Ok)).count();
         let srv = ScriptServer::start(archive.clone(), script);
         let url = srv.url();
-        let mut cargs: Vec<String> = vec!["clone".into()];
+        let mut cargs: Vec<String> = if rng.chance(1, 4) { vec!["-vv".into(), "clone".into()] } else { vec!["clone".into()] };
         if nfail > 0 { cargs.extend(["--http-retry-count".to_string(), format!("{}", nfail + rng.below(2) as usize), "--http-retry-delay".to_string(), "0".to_string()]); }
         if rng.chance(1, 2) { cargs.extend(["--buffered-chunks".to_string(), format!("{}", rng.pick(&[1, 2, 7, 32]))]); }
         if kind != "new" {
